@@ -115,7 +115,9 @@ class TranslatorZ3(Translator):
     # Implemented language
     __LANG__ = "z3"
     # Operations translation
-    trivial_ops = ["+", "-", "/", "%", "&", "^", "|", "*", "<<"]
+    # Python operators with the same meaning on z3 bit vectors ('/' and '%'
+    # would be the *signed* z3 operators, Miasm's are unsigned)
+    trivial_ops = ["+", "-", "&", "^", "|", "*", "<<"]
 
     def __init__(self, endianness="<", loc_db=None, **kwargs):
         """Instance a Z3 translator
@@ -205,11 +207,11 @@ class TranslatorZ3(Translator):
                     res = z3.RotateRight(res, arg)
                 elif expr.op == "sdiv":
                     res = self._sdivC(expr.args[0], expr.args[1])
-                elif expr.op == "udiv":
+                elif expr.op in ["udiv", "/"]:
                     res = z3.UDiv(res, arg)
                 elif expr.op == "smod":
                     res = res - (arg * (self._sdivC(expr.args[0], expr.args[1])))
-                elif expr.op == "umod":
+                elif expr.op in ["umod", "%"]:
                     res = z3.URem(res, arg)
                 elif expr.op == "==":
                     res = z3.If(
